@@ -273,6 +273,20 @@ func plant(rt *rapid.T, g *gen.G, p *gen.Program, kind string) (desc string, pla
 			return "", "", false
 		}
 		bad, d := wrongArity(rt, s.get)
+		if !s.inLet && rapid.IntRange(0, 4).Draw(rt, "deadbranch") == 0 {
+			// the misuse sits in the branch of an iff that a constant binding
+			// never selects: it is a misuse all the same
+			val := rapid.SampledFrom([]string{"true", "false"}).Draw(rt, "deadcond")
+			l := &gen.Let{Name: gen.Ident{Name: "Ldead"}, X: gen.ID(val)}
+			p.Stmts = append([]gen.Stmt{l}, p.Stmts...)
+			p.EmptyBefore = nil
+			args := []gen.Expr{gen.ID("Ldead"), s.get, bad}
+			if val == "false" {
+				args = []gen.Expr{gen.ID("Ldead"), bad, s.get}
+			}
+			s.set(&gen.Call{Func: rapid.SampledFrom([]string{"iff", "iif"}).Draw(rt, "deadiff"), Args: args})
+			return "built-in arity in a branch a constant never selects: " + d, place(s), true
+		}
 		s.set(bad)
 		return "built-in arity: " + d, place(s), true
 	case "left-outside-join", "right-outside-join":
